@@ -326,6 +326,23 @@ func main() {
 	}
 	tb.WriteString("].\n")
 
+
+	// ---- ToEval (convert.go) and fold (fold.go): node type -> evaluator constructor
+	toeval := switchTable(parse("internal/eval/convert.go"), "ToEval")
+	foldt := switchTable(parse("internal/eval/fold.go"), "fold")
+	tb.WriteString("\n(* internal/eval/convert.go: ToEval — node type, evaluator constructors used in its case *)\nDefinition toeval_table : list (string * list string) := [\n")
+	writeTable(&tb, toeval)
+	tb.WriteString("].\n")
+	tb.WriteString("\n(* internal/eval/fold.go: fold — node type, evaluator constructors used in its case (newErrorEval = never folded),\n   and whether the case tests its operand for types.EntityUID before evaluating *)\nDefinition fold_table : list (string * (list string * bool)) := [\n")
+	for i, e := range foldt {
+		sep := ";"
+		if i == len(foldt)-1 {
+			sep = ""
+		}
+		fmt.Fprintf(&tb, "  (%q%%string, (%s, %v))%s\n", e.node, coqStrList(e.ctors), e.guard, sep)
+	}
+	tb.WriteString("].\n")
+
 	if err := os.MkdirAll(out, 0o755); err != nil {
 		fail("%v", err)
 	}
@@ -350,4 +367,81 @@ func constExpr(e ast.Expr) string {
 	}
 	fail("unsupported constant expression %T", e)
 	return ""
+}
+
+type caseEntry struct {
+	node  string
+	ctors []string
+	guard bool
+}
+
+func coqStrList(xs []string) string {
+	var parts []string
+	for _, x := range xs {
+		parts = append(parts, fmt.Sprintf("%q%%string", x))
+	}
+	return "[" + strings.Join(parts, "; ") + "]"
+}
+
+func writeTable(tb *strings.Builder, es []caseEntry) {
+	for i, e := range es {
+		sep := ";"
+		if i == len(es)-1 {
+			sep = ""
+		}
+		fmt.Fprintf(tb, "  (%q%%string, %s)%s\n", e.node, coqStrList(e.ctors), sep)
+	}
+}
+
+// switchTable finds the type switch in function fn and lists, per `case ast.NodeTypeX:`, the
+// evaluator constructors (identifiers new...Eval, and the binary/unary helper targets) it mentions.
+func switchTable(f *ast.File, fn string) []caseEntry {
+	var res []caseEntry
+	for _, d := range f.Decls {
+		fd, ok := d.(*ast.FuncDecl)
+		if !ok || fd.Name.Name != fn || fd.Recv != nil {
+			continue
+		}
+		ast.Inspect(fd.Body, func(n ast.Node) bool {
+			ts, ok := n.(*ast.TypeSwitchStmt)
+			if !ok {
+				return true
+			}
+			for _, c := range ts.Body.List {
+				cc := c.(*ast.CaseClause)
+				for _, te := range cc.List {
+					se, ok := te.(*ast.SelectorExpr)
+					if !ok {
+						continue
+					}
+					e := caseEntry{node: se.Sel.Name}
+					seen := map[string]bool{}
+					for _, st := range cc.Body {
+						ast.Inspect(st, func(m ast.Node) bool {
+							switch v := m.(type) {
+							case *ast.Ident:
+								if strings.HasPrefix(v.Name, "new") && strings.HasSuffix(v.Name, "Eval") && !seen[v.Name] {
+									seen[v.Name] = true
+									e.ctors = append(e.ctors, v.Name)
+								}
+							case *ast.TypeAssertExpr:
+								if s2, ok := v.Type.(*ast.SelectorExpr); ok && s2.Sel.Name == "EntityUID" {
+									e.guard = true
+								}
+							}
+							return true
+						})
+					}
+					sort.Strings(e.ctors)
+					res = append(res, e)
+				}
+			}
+			return false
+		})
+	}
+	if len(res) == 0 {
+		fail("type switch of %s not found", fn)
+	}
+	sort.Slice(res, func(i, j int) bool { return res[i].node < res[j].node })
+	return res
 }
